@@ -97,10 +97,10 @@ Definition is_deliver (e : event) : bool := match e with EvDeliver _ _ _ => true
 Definition is_swallow (e : event) : bool := match e with EvSwallow _ _ _ => true | _ => false end.
 Definition is_keep (e : event) : bool := match e with EvKeep _ => true | _ => false end.
 
-Lemma do_rx_events s m :
-  forall e, In e (snd (do_rx s m)) -> is_deliver e = false /\ is_swallow e = false.
+Lemma do_rx_core_events s m :
+  forall e, In e (snd (do_rx_core s m)) -> is_deliver e = false /\ is_swallow e = false.
 Proof.
-  unfold do_rx.
+  unfold do_rx_core.
   repeat match goal with
          | |- context [match ?x with _ => _ end] =>
              match type of x with
@@ -115,6 +115,23 @@ Proof.
            | H : False |- _ => destruct H
            | H : _ = e0 |- _ => subst e0
            end; split; reflexivity.
+Qed.
+
+Lemma do_rx_snd s m : snd (do_rx s m) = snd (do_rx_core s m).
+Proof.
+  unfold do_rx. destruct (do_rx_core s m) as [s1 ev]. destruct (rx_sid s m); [|reflexivity].
+  destruct (m_group m && negb (is_holding (rx s1))); reflexivity.
+Qed.
+
+Lemma do_rx_events s m :
+  forall e, In e (snd (do_rx s m)) -> is_deliver e = false /\ is_swallow e = false.
+Proof. rewrite do_rx_snd. apply do_rx_core_events. Qed.
+
+(** on anything but a group message [do_rx] is [do_rx_core] *)
+Lemma do_rx_plain s m : m_group m = false -> do_rx s m = do_rx_core s m.
+Proof.
+  intros H. unfold do_rx. destruct (do_rx_core s m) as [s1 ev]. rewrite H. cbn [andb].
+  destruct (rx_sid s m); reflexivity.
 Qed.
 
 (** * Routing soundness *)
@@ -396,35 +413,20 @@ Qed.
 
 (** * Answers to unknown exchanges are dropped *)
 
-Lemma find_exch_strip l m : find_exch l (strip_mrp m) = find_exch l m.
-Proof.
-  unfold find_exch.
-  assert (E : find_index (slot_is_for_rx (strip_mrp m)) l = find_index (slot_is_for_rx m) l).
-  { induction l as [|a t IH]; [reflexivity|]. cbn [find_index].
-    replace (slot_is_for_rx (strip_mrp m) a) with (slot_is_for_rx m a) by (destruct a; reflexivity).
-    rewrite IH. reflexivity. }
-  rewrite E. reflexivity.
-Qed.
-
-Theorem unknown_dropped s m se :
-  rx s = RxEmpty -> find_key (sessions s) (m_key m) = Some se ->
+Lemma unknown_dropped_core s m se :
+  find_key (sessions s) (m_key m) = Some se ->
   find_exch (s_exchs se) m = None ->
   (m_init m = false \/ is_new_exchange (m_op m) = false) ->
   is_close (m_op m) = false ->
-  exists s' ev, step false s (LRx m) = Some (s', ev) /\
-    rx s' = RxEmpty /\ handles s' = handles s /\
+  exists s1 ev, do_rx_core s m = (s1, ev) /\
+    rx s1 = RxEmpty /\ handles s1 = handles s /\
     (ev = [] \/ ev = [EvDupAck (m_key m) (m_ctr m)]) /\
-    forall se', In se' (sessions s') ->
+    forall se', In se' (sessions s1) ->
       exists se0, In se0 (sessions s) /\ s_id se' = s_id se0 /\ s_exchs se' = s_exchs se0.
 Proof.
-  intros Hrx Hk Hnone Hgate Hcl. cbn [step]. rewrite Hrx. unfold do_rx. rewrite Hk.
-  set (m1 := if s_group se then strip_mrp m else m).
-  assert (Hnone1 : find_exch (s_exchs se) m1 = None).
-  { unfold m1. destruct (s_group se); [rewrite find_exch_strip|]; exact Hnone. }
-  assert (Hgate1 : m_init m1 = false \/ is_new_exchange (m_op m1) = false).
-  { unfold m1. destruct (s_group se); exact Hgate. }
-  destruct (session_post_recv se m1 (now s)) as [se1 r] eqn:Hp.
-  destruct (unknown_rejected _ _ _ _ _ Hp Hnone1 Hgate1) as [Hr He].
+  intros Hk Hnone Hgate Hcl. unfold do_rx_core. rewrite Hk.
+  destruct (session_post_recv se m (now s)) as [se1 r] eqn:Hp.
+  destruct (unknown_rejected _ _ _ _ _ Hp Hnone Hgate) as [Hr He].
   destruct (session_post_recv_fields _ _ _ _ _ Hp) as [Eid _].
   destruct (find_key_some _ _ _ Hk) as [Hse _].
   assert (Hsess : forall se', In se' (upd_sid (sessions s) (s_id se) (fun _ => se1)) ->
@@ -440,6 +442,28 @@ Proof.
       repeat split; try (left; reflexivity); try (right; reflexivity); exact Hsess.
 Qed.
 
+Theorem unknown_dropped s m se :
+  rx s = RxEmpty -> find_key (sessions s) (m_key m) = Some se ->
+  find_exch (s_exchs se) m = None ->
+  (m_init m = false \/ is_new_exchange (m_op m) = false) ->
+  is_close (m_op m) = false ->
+  exists s' ev, step false s (LRx m) = Some (s', ev) /\
+    rx s' = RxEmpty /\ handles s' = handles s /\
+    (ev = [] \/ ev = [EvDupAck (m_key m) (m_ctr m)]) /\
+    forall se', In se' (sessions s') ->
+      exists se0, In se0 (sessions s) /\ s_id se' = s_id se0 /\ s_exchs se' = s_exchs se0.
+Proof.
+  intros Hrx Hk Hnone Hgate Hcl. cbn [step]. rewrite Hrx.
+  destruct (unknown_dropped_core _ _ _ Hk Hnone Hgate Hcl) as [s1 [ev [E [Er [Eh [Ee Es]]]]]].
+  unfold do_rx. rewrite E. destruct (rx_sid s m) as [sid|].
+  - destruct (m_group m && negb (is_holding (rx s1))).
+    + eexists _, _. split; [reflexivity|]. cbn [rx handles sessions].
+      split; [exact Er|]. split; [exact Eh|]. split; [exact Ee|].
+      intros se' Hin. apply Es. eapply in_group_gc. exact Hin.
+    + exists s1, ev. repeat split; assumption.
+  - exists s1, ev. repeat split; assumption.
+Qed.
+
 (** * A peer's CloseSession takes effect whatever exchange it arrives on *)
 
 Theorem peer_close_honoured s m se :
@@ -451,28 +475,35 @@ Theorem peer_close_honoured s m se :
     rx s' = RxEmpty /\ handles s' = handles s /\
     (forall x, In x (sessions s') -> In x (sessions s) /\ s_id x <> s_id se).
 Proof.
-  intros I Hrx Hk Hfresh Hop Hm. cbn [step]. rewrite Hrx. unfold do_rx. rewrite Hk.
+  intros I Hrx Hk Hfresh Hop Hm. cbn [step]. rewrite Hrx.
+  assert (Hcore : exists s1, do_rx_core s m = (s1, [EvPeerClosed (s_id se)]) /\
+            rx s1 = RxEmpty /\ handles s1 = handles s /\
+            (forall x, In x (sessions s1) -> In x (sessions s) /\ s_id x <> s_id se)).
+  2:{ destruct Hcore as [s1 [E [Er [Eh Es]]]]. unfold do_rx. rewrite E.
+      destruct (rx_sid s m) as [sid|]; [|exists s1; split; [reflexivity|]; split; [exact Er|]; split; [exact Eh|exact Es]].
+      destruct (m_group m && negb (is_holding (rx s1))); [|exists s1; split; [reflexivity|]; split; [exact Er|]; split; [exact Eh|exact Es]].
+      eexists. split; [reflexivity|]. cbn [rx handles sessions].
+      split; [exact Er|]. split; [exact Eh|]. intros x Hx. apply Es. eapply in_group_gc. exact Hx. }
+  unfold do_rx_core. rewrite Hk.
   destruct (find_key_some _ _ _ Hk) as [Hse _].
-  set (m1 := if s_group se then strip_mrp m else m).
-  assert (Hctr : m_ctr m1 = m_ctr m) by (unfold m1; destruct (s_group se); reflexivity).
-  assert (Hop1 : m_op m1 = OpScClose) by (unfold m1; destruct (s_group se); exact Hop).
-  assert (Hm1 : find_exch (s_exchs se) m1 = None \/ m_ack m1 = None).
-  { unfold m1. destruct (s_group se); [right; reflexivity|exact Hm]. }
-  destruct (session_post_recv se m1 (now s)) as [se1 r] eqn:Hp.
+  destruct (session_post_recv se m (now s)) as [se1 r] eqn:Hp.
   destruct (session_post_recv_fields _ _ _ _ _ Hp) as [Eid _].
   (* the result is Ok false (matched) or NoExchange (unmatched) *)
   assert (Hr : (exists b, r = Ok b) \/ r = Err ERR_NO_EXCHANGE).
   { destruct (session_post_recv_cases _ _ _ _ _ Hp) as [[Hf _]|[_ [C|C]]].
-    - rewrite Hctr in Hf. congruence.
-    - destruct C as [i [e [Hfe C]]]. destruct Hm1 as [Hn|Hack]; [congruence|].
+    - congruence.
+    - destruct C as [i [e [Hfe C]]]. destruct Hm as [Hn|Hack]; [congruence|].
       destruct C as [[e' [_ [-> _]]]|[Hr1 [Hr2 _]]]; [left; eexists; reflexivity|].
-      exfalso. revert Hp. unfold session_post_recv.
-      destruct (post_recv (s_win se) (m_ctr m1) (s_enc se) false) as [w' fr] eqn:Hw.
-      rewrite Hctr in Hw. rewrite Hw in Hfresh. cbn in Hfresh. subst fr. cbn [negb].
-      rewrite Hfe. unfold exch_post_recv, rm_post_recv. rewrite Hack.
-      intros H; inversion H; subst. apply Hr1. reflexivity.
+      exfalso. revert Hp. unfold session_post_recv, session_post_recv_raw.
+      destruct (effective_fields se m) as [_ [_ [_ [Ec [Ex [Ei Eo]]]]]]. rewrite Ec.
+      destruct (post_recv (s_win se) (m_ctr m) (s_enc se) false) as [w' fr] eqn:Hw.
+      cbn in Hfresh. subst fr. cbn [negb].
+      rewrite find_exch_effective, Hfe. unfold exch_post_recv, rm_post_recv.
+      assert (Ea : m_ack (effective se m) = None).
+      { unfold effective. destruct (s_group se && negb (m_ctl m)); [reflexivity|exact Hack]. }
+      rewrite Ea. intros H; inversion H; subst. apply Hr1. reflexivity.
     - destruct C as [_ [[_ [-> _]]|[[_ [Hn _]]|[[_ [Hn _]]|[_ [Hn _]]]]]]; [right; reflexivity| | |];
-        rewrite Hop1 in Hn; discriminate. }
+        rewrite Hop in Hn; discriminate. }
   set (ss1 := upd_sid (sessions s) (s_id se) (fun _ => se1)).
   assert (Hnd1 : NoDup (map s_id ss1)).
   { unfold ss1. rewrite map_id_upd_sid by (intros; congruence). apply (inv_nodup _ I). }
@@ -493,8 +524,8 @@ Qed.
     the pending exchange stays behind without its message (no sweeper looks at
     it any more). *)
 
-Definition w_m1 : msg := mkMsg 1 true false 1 10 true OpOrdinary true None.
-Definition w_m2 : msg := mkMsg 2 true false 1 20 true OpOrdinary true None.
+Definition w_m1 : msg := mkMsg 1 true false false 1 10 true OpOrdinary true None.
+Definition w_m2 : msg := mkMsg 2 true false false 1 20 true OpOrdinary true None.
 Definition w_trace : list label :=
   [LAddSession 1 true false; LAddSession 2 true false; LRx w_m1; LAccept; LRecv 0 0; LRxDone 0 0;
    LRemoveSession 0; LRx w_m2].
